@@ -559,13 +559,11 @@ def wide_integer_corpus(ck):
 
 def known_tags(c, e, bad):
     tags = set()
-    # a constant listed before a parameter which is positioned in front of it
+    # parameters listed in another order than they are positioned on the wire
     ps = c.params
-    for i, p in enumerate(ps):
-        if p["kind"]["k"] in ("coded", "physconst") and p["bytepos"] is not None:
-            if any(q["bytepos"] is not None and q["bytepos"] < p["bytepos"] and
-                   q["kind"]["k"] not in ("coded", "physconst") for q in ps[i + 1:]):
-                tags.add("constant-listed-before-earlier-positioned-parameter")
+    pos = [p["bytepos"] for p in ps if p["bytepos"] is not None]
+    if any(a > b for a, b in zip(pos, pos[1:])):
+        tags.add("parameters-listed-out-of-wire-order")
     tags.add(bad.split(":")[0].split("(")[0].strip()[:60])
     for k in desc_features(c.params):
         tags.add(k)
